@@ -490,7 +490,10 @@ def _after_select(case, ctx, cfg, kind, f, img, mask, t, nwarn, rows_open, cols,
     if ms == 0:
         fp = km
     else:
-        idx = np.arange(-ms, ms + 1)
+        # all integer pixel offsets within min_separation (a centred,
+        # symmetric neighbourhood whatever the fractional part of ms)
+        n_ = int(math.floor(ms))
+        idx = np.arange(-n_, n_ + 1)
         xx, yy = np.meshgrid(idx, idx)
         fp = (xx ** 2 + yy ** 2) <= ms ** 2
     bw = (K.yradius, K.xradius) if cfg['exclude_border'] else None
@@ -596,7 +599,7 @@ def star_cases(draw):
            'exclude_border': draw(st.booleans()),
            'brightest': draw(st.sampled_from([None, None, 1, 2, 3])),
            'peakmax': draw(st.sampled_from([None, None, 60.0, 120.0])),
-           'min_separation': draw(st.sampled_from([0.0, 0.0, 2.5, 4.0]))}
+           'min_separation': draw(st.sampled_from([0.0, 0.0, 2.5, 4.0, 1.5, 3.3]))}
     return {'scene': {'shape': [ny, nx], 'stars': stars,
                       'noise': draw(st.sampled_from([0.3, 1.0])),
                       'noise_seed': draw(st.integers(0, 10**6)),
